@@ -250,6 +250,10 @@ func c17Closed(t *T) {
 		if errors.Is(want.err, hackpadfs.ErrClosed) && !errors.Is(got.err, hackpadfs.ErrClosed) {
 			t.Fail("closed-call-wrong-error", sig+":not-ErrClosed", fmt.Sprintf("%s on a closed %s handle of %q returned %v; os.File's error matches ErrClosed", o.Kind, stackName(k), path, got.err))
 		}
+		if got.err != nil && (got.n != 0 || got.off != 0 || len(got.data) != 0) && want.n == 0 && want.off == 0 {
+			// failing cleanly: no bytes claimed to be transferred, no offset reported, as os.File answers (0 or nil with the error)
+			t.Fail("closed-call-claims-progress", sig+":nonzero-result", fmt.Sprintf("%s on a closed %s handle of %q returned n=%d offset=%d together with %v; a closed os.File returns 0", o.Kind, stackName(k), path, got.n, got.off, got.err))
+		}
 	}
 	t.NonTrivial()
 }
